@@ -125,6 +125,18 @@ Allocate(c, u, lr, tx, rf, tk) ==
                     /\ out' = {[k |-> "resp", to |-> c, m |-> "Allocate", cls |-> "ok", code |-> 0,
                                 mapped |-> c, relay |-> c, life |-> Granted(lr), port |-> port]}
 
+(* An Allocate (no LIFETIME, family or token) that succeeds at the server while the success response cannot be    *)
+(* sent: the write on the listening socket fails once.  The allocation exists; the client, which saw nothing,    *)
+(* retransmits -- and Allocate above answers the retransmission (same transaction id) with the same success.     *)
+AllocateLostWrite(c, u, tx) ==
+  /\ c \notin {"s1", "s2"}
+  /\ ~Live(c) /\ u \notin QuotaDenied /\ ~(u \in QuotaOne /\ \E x \in Clients : alloc[x].live /\ alloc[x].user = u)
+  /\ last' = [a |-> "AllocateLostWrite", c |-> c, u |-> u, tx |-> tx]
+  /\ alloc' = [alloc EXCEPT ![c] =
+       [live |-> TRUE, user |-> u, fam |-> FamOf(c, 0), rem |-> DefaultLife, tx |-> tx, port |-> <<"any">>]]
+  /\ UNCHANGED <<perm, chan, resv>>
+  /\ out' = {}
+
 (* handleRefreshRequest.  rf: REQUESTED-ADDRESS-FAMILY (0 = absent).        *)
 Refresh(c, u, lr, rf) ==
   /\ last' = [a |-> "Refresh", c |-> c, u |-> u, lr |-> lr, rf |-> rf]
@@ -276,6 +288,7 @@ Next ==
   \/ \E c \in Clients, n \in ChanNums, pay \in Pays, len \in Lens : ChanData(c, n, pay, len)
   \/ \E c \in Clients, p \in Peers, pay \in Pays, len \in Lens : PeerData(c, p, pay, len)
   \/ \E c \in StreamClients : ConnClose(c)
+  \/ \E c \in Clients, u \in Users, tx \in Txids : AllocateLostWrite(c, u, tx)
   \/ \E d \in Jumps : Advance(d)
 
 Spec == Init /\ [][Next]_vars
